@@ -53,6 +53,9 @@ func TestCheck(t *testing.T) {
 			n := exploreCrafted(r, im, ev.Pick(r, 3, 5), poseidon)
 			transitions += int64(n)
 			r.Add("crafted_key_steps", int64(n))
+			n = prefixSweep(r, im, poseidon)
+			transitions += int64(n)
+			r.Add("prefix_sweep_steps", int64(n))
 		}
 	}
 	// ---- layer 1c: temporary tries used for tx/event/receipt commitments, both backends ----
@@ -128,7 +131,7 @@ func TestCheck(t *testing.T) {
 	r.Set("traces_validated_against_impl", transitions)
 	r.Set("distinct_nontrivial", states)
 	r.Set("rule", "layer 1: explicit-state search over ALL kv-maps of height-2/3 tries x every single write (and every ordered pair inside one commit) on a trie re-opened from the persisted image, "+
-		"both trie implementations, Pedersen and Poseidon: root == independent reference commitment AND persisted node image == image first recorded for that kv-map; all ordered insert/delete sequences over crafted 251-bit keys; "+
+		"both trie implementations, Pedersen and Poseidon: root == independent reference commitment AND persisted node image == image first recorded for that kv-map; all ordered insert/delete sequences over crafted 251-bit keys; pairs / triples of 251-bit keys with every common-prefix length 0..250 (three bit patterns) inserted in every order and deleted in every subset; "+
 		"temporary commitment tries for 0..17 items on both backends. layer 2: BFS over chains of state diffs through the real Blockchain (both backends, 0.13.2 / 0.14.0 / 0.14.1), stored root and the commitment recomputed from the stored tries == reference commitment of the dictionary state; two-blocks-vs-merged-block root equality")
 	r.Assume = append(r.Assume, "Pedersen/Poseidon primitives and felt arithmetic trusted (pinned by the suite's known-answer tests)", "Go map iteration order inside juno is not controlled")
 	r.Finish()
